@@ -12,7 +12,7 @@ const char *verif_rule =
     "is transmitted for the first time exactly once, CONs in submission order; NONs go out in the instant they are submitted (established session); at quiescence nothing is still held; "
     "(B) nothing is transmitted before the session is established except the library's own CSM, afterwards the held messages appear in order once each; if the session fails each held CON "
     "gets exactly one NACK and is never transmitted. Non-trivial = more CONs submitted than NSTART and a release from the hold queue happened (labelled by ACK / RST / give-up), "
-    "or (B) >=2 messages held; distinct = by full wire trace";
+    "or (B) >=2 messages held; distinct = by full wire trace In part of the longer tapes the sessions' message id counters coincide, and one datagram send of the library fails at the socket (ENOBUFS): the attempt counts as a transmission that was lost, a refused coap_send() as not accepted.";
 size_t verif_max_tape = 300;
 
 namespace {
